@@ -171,6 +171,8 @@ class Inliner:
         self.counter = 0
         self.inlined: List[str] = []
         self.skipped: Dict[str, str] = {}
+        self.waiting = 0
+        self.force = False
 
     # which functions are new helpers
     def is_new(self, fi) -> bool:
@@ -216,12 +218,125 @@ class Inliner:
                 changed += self._process_function(caller, new)
             total += changed
             if not changed:
+                if self.waiting and not self.force:
+                    # helpers that waited for an inner helper which sits in an expression position (never inlined)
+                    self.force = True
+                    self.waiting = 0
+                    continue
                 break
+            self.waiting = 0
             P._reindex()
+        total += self._expression_pass()
         if total:
             self._drop_unused()
             P._reindex()
         return total
+
+    # ---- helpers that are one expression: `def h(a, b): return <expr>` used anywhere in an expression
+    def _expression_pass(self) -> int:
+        from .model import FuncInfo
+
+        P = self.P
+        n_total = 0
+        for _ in range(3):
+            new = {fi.fq: fi for fi in P.funcs.values() if self.is_new(fi)}
+            single = {}
+            for fq, fi in new.items():
+                body = [x for x in fi.node.body if not (isinstance(x, ast.Expr) and isinstance(x.value, ast.Constant) and isinstance(x.value.value, str))]
+                if len(body) == 1 and isinstance(body[0], ast.Return) and body[0].value is not None and self.inlinable_def(fi) is None:
+                    if not any(isinstance(x, (ast.Yield, ast.YieldFrom, ast.NamedExpr)) for x in ast.walk(body[0].value)):
+                        single[fq] = (fi, body[0].value)
+            if not single:
+                break
+            n = 0
+            inl = self
+
+            for caller in list(P.funcs.values()):
+                class T(ast.NodeTransformer):
+                    def visit_FunctionDef(self, node):
+                        return node if node is not caller.node else self.generic_visit(node) or node
+
+                    visit_AsyncFunctionDef = visit_FunctionDef
+
+                    def visit_Lambda(self, node):
+                        return node
+
+                    def visit_Await(self, node):
+                        if isinstance(node.value, ast.Call):
+                            node.value._awaited = True
+                        self.generic_visit(node)
+                        c = node.value
+                        if isinstance(c, ast.Name) and getattr(c, "_inlined_async", False):
+                            return c
+                        if getattr(node.value, "_inlined_async", False):
+                            return node.value
+                        return node
+
+                    def visit_Call(self, node):
+                        self.generic_visit(node)
+                        nonlocal n
+                        g = P.resolve_call(caller, node)
+                        if not isinstance(g, FuncInfo) or g.fq not in single or g is caller:
+                            return node
+                        fi, expr = single[g.fq]
+                        if inl._receiver_problem(caller, node, fi) is not None:
+                            return node
+                        if isinstance(fi.node, ast.AsyncFunctionDef) != bool(getattr(node, "_awaited", False)):
+                            return node  # a coroutine object that is not awaited on the spot (or an awaited sync call)
+                        deco = [ast.unparse(d) for d in fi.node.decorator_list]
+                        params = [a.arg for a in fi.node.args.posonlyargs + fi.node.args.args]
+                        bound_first = fi.cls is not None and "staticmethod" not in deco
+                        pos = params[1:] if bound_first and params else params
+                        kwonly = [a.arg for a in fi.node.args.kwonlyargs]
+                        defaults = dict(zip(params[len(params) - len(fi.node.args.defaults):], fi.node.args.defaults))
+                        for a, d in zip(fi.node.args.kwonlyargs, fi.node.args.kw_defaults):
+                            if d is not None:
+                                defaults[a.arg] = d
+                        if any(isinstance(a, ast.Starred) for a in node.args) or any(k.arg is None for k in node.keywords) or len(node.args) > len(pos):
+                            return node
+                        binding = dict(zip(pos, node.args))
+                        for k in node.keywords:
+                            if k.arg not in pos + kwonly or k.arg in binding:
+                                return node
+                            binding[k.arg] = k.value
+                        for p_ in pos + kwonly:
+                            if p_ not in binding:
+                                if p_ not in defaults:
+                                    return node
+                                binding[p_] = defaults[p_]
+
+                        def simple(a):
+                            while isinstance(a, ast.Attribute):
+                                a = a.value
+                            return isinstance(a, (ast.Name, ast.Constant)) or (isinstance(a, ast.UnaryOp) and isinstance(a.operand, ast.Constant))
+
+                        uses = {}
+                        for x in ast.walk(expr):
+                            if isinstance(x, ast.Name) and x.id in binding:
+                                uses[x.id] = uses.get(x.id, 0) + 1
+                        # an argument that is not a plain reference may only be substituted if the parameter is used exactly once
+                        if any(not simple(a) and uses.get(p_, 0) != 1 for p_, a in binding.items()):
+                            return node
+                        if sum(1 for p_, a in binding.items() if not simple(a)) > 1:
+                            return node  # evaluation order among several effectful arguments could change
+                        subst = dict(binding)
+                        if bound_first and params and params[0] != getattr(node.func.value, "id", None):
+                            subst[params[0]] = node.func.value
+                        new_expr = _Renamer({}, subst).visit(copy.deepcopy(expr))
+                        ast.copy_location(new_expr, node)
+                        ast.fix_missing_locations(new_expr)
+                        if isinstance(fi.node, ast.AsyncFunctionDef):
+                            new_expr._inlined_async = True
+                        n += 1
+                        inl.inlined.append(f"{fi.fq} into {caller.fq}")
+                        return new_expr
+
+                caller.node.body = [T().visit(x) for x in caller.node.body]
+            n_total += n
+            if not n:
+                break
+            P._reindex()
+        return n_total
 
     # ---- per caller
     def _process_function(self, caller, new) -> int:
@@ -288,10 +403,15 @@ class Inliner:
                 negate, t = True, t.operand
             call, awaited = self._call_of(t)
             kind = "test"
+        from .model import FuncInfo
+
+        if call is None or not (isinstance(self.P.resolve_call(caller, call), FuncInfo) and self.P.resolve_call(caller, call).fq in new):
+            hoisted = self._hoist_inner_call(caller, s, new)
+            if hoisted is not None:
+                return hoisted
         if call is None:
             return None
         g = self.P.resolve_call(caller, call)
-        from .model import FuncInfo
 
         if not isinstance(g, FuncInfo) or g.fq not in new or g is caller:
             return None
@@ -303,7 +423,8 @@ class Inliner:
             for c in _own(g.node):
                 if isinstance(c, ast.Call):
                     h = self.P.resolve_call(g, c)
-                    if isinstance(h, FuncInfo) and h.fq in new and h is not g and self.inlinable_def(h) is None and h.fq not in self.skipped:
+                    if isinstance(h, FuncInfo) and h.fq in new and h is not g and self.inlinable_def(h) is None and h.fq not in self.skipped and not self.force:
+                        self.waiting += 1
                         return None  # wait for the next round
                     if h is g:
                         why = "recursive"
@@ -317,6 +438,87 @@ class Inliner:
         except NotInlinable as e:
             self.skipped[g.fq] = str(e)
             return None
+
+    # ---- a helper call in expression position: `return a, h(x)` / `f(h(x))` / `v = [h(x), b]`
+    def _hoist_inner_call(self, caller, s, new) -> Optional[List[ast.stmt]]:
+        """If the first thing the statement evaluates (after plain names/constants) is a call to a new helper, bind that
+        call to a temporary in front of the statement (same evaluation order) and let the statement use the temporary."""
+        from .model import FuncInfo
+
+        if isinstance(s, ast.Return) and s.value is not None:
+            root = s.value
+        elif isinstance(s, ast.Assign) and len(s.targets) == 1 and isinstance(s.targets[0], ast.Name):
+            root = s.value
+        elif isinstance(s, ast.Expr):
+            root = s.value
+        else:
+            return None
+
+        def simple(n):
+            while isinstance(n, ast.Attribute):
+                n = n.value
+            return isinstance(n, (ast.Name, ast.Constant))
+
+        found = []  # (parent, field, index)
+
+        def walk(n, depth) -> bool:
+            """visit in evaluation order; True = stop (something effectful was met)"""
+            if depth > 4:
+                return True
+            kids = []
+            if isinstance(n, (ast.Tuple, ast.List, ast.Set)):
+                kids = [(n, "elts", i) for i in range(len(n.elts))]
+            elif isinstance(n, ast.Call):
+                if not simple(n.func):
+                    return True
+                kids = [(n, "args", i) for i in range(len(n.args))] + [(k, "value", None) for k in n.keywords]
+            elif isinstance(n, ast.Await):
+                kids = [(n, "value", None)]
+            elif isinstance(n, ast.Dict):
+                for i in range(len(n.keys)):
+                    if n.keys[i] is not None and not simple(n.keys[i]):
+                        return True
+                    kids.append((n, "values", i))
+            else:
+                return True
+            for parent, field, idx in kids:
+                child = getattr(parent, field) if idx is None else getattr(parent, field)[idx]
+                if simple(child):
+                    continue
+                c, awaited = self._call_of(child)
+                if c is not None:
+                    g = self.P.resolve_call(caller, c)
+                    if isinstance(g, FuncInfo) and g.fq in new and g is not caller:
+                        found.append((parent, field, idx, child))
+                        return True
+                if walk(child, depth + 1):
+                    return True
+                if isinstance(child, (ast.Call, ast.Await)):
+                    return True  # an effectful sibling was evaluated: later calls cannot be moved in front of it
+            return False
+
+        walk(root, 0)
+        if not found:
+            return None
+        parent, field, idx, child = found[0]
+        self.counter += 1
+        tmp = f"hoisted_i{self.counter}"
+        bind = ast.copy_location(ast.Assign(targets=[ast.Name(id=tmp, ctx=ast.Store())], value=child, type_comment=None), s)
+        ref = ast.copy_location(ast.Name(id=tmp, ctx=ast.Load()), child)
+        if idx is None:
+            setattr(parent, field, ref)
+        else:
+            getattr(parent, field)[idx] = ref
+        ast.fix_missing_locations(bind)
+        rep = self._try_statement(caller, bind, new)
+        if rep is None:
+            # could not inline after all: undo
+            if idx is None:
+                setattr(parent, field, child)
+            else:
+                getattr(parent, field)[idx] = child
+            return None
+        return rep + [s]
 
     def _receiver_problem(self, caller, call, g) -> Optional[str]:
         deco = [ast.unparse(d) for d in g.node.decorator_list]
